@@ -114,6 +114,7 @@ type RegSpec struct {
 	Group     []string `json:"group"`
 	Kind      string   `json:"kind"`
 	Fresh     bool     `json:"fresh,omitempty"`
+	Form      string   `json:"form"` // func, methodexpr, ctlfunc, struct
 	Expr      string   `json:"expr"`
 	Tags      []string `json:"tags"`
 	What      string   `json:"what"`             // human-readable: func AaBb / struct Aaa{XxZz}
@@ -149,6 +150,8 @@ type Program struct {
 	Collisions []*CollisionSpec
 	Direct     [][2]string
 	Files      map[string]string // relative path -> source
+	Rounds     int               // concurrent phase: rounds per peer
+	Seed       int64
 	NHandlers  int
 }
 
@@ -328,6 +331,16 @@ func (g *gen) fn(pkg string, push bool, ident string) *Handler {
 	return h
 }
 
+// ctlFn defines a plain function whose first parameter is a pointer to the controller c.
+func (g *gen) ctlFn(c *Controller, ident string) *Handler {
+	if !g.take(c.Pkg, ident) {
+		return nil
+	}
+	h := g.newHandler(c.Pkg, c.Push, ident, c.Name, false)
+	g.funcs[c.Pkg+"."+ident] = h
+	return h
+}
+
 func (g *gen) ctl(pkg string, push bool, name string, methods []string) *Controller {
 	if !g.take(pkg, name) {
 		return nil
@@ -403,14 +416,22 @@ func groupClass(chain []string, doc bool) string {
 func (g *gen) regFunc(h *Handler, chain []string, doc bool) *RegSpec {
 	g.nreg++
 	rs := &RegSpec{ID: fmt.Sprintf("R%d", g.nreg), Group: chain, Kind: funcKind(h.Push), Tags: []string{h.Tag},
-		PClass: Classify(h.Ident), GClass: groupClass(chain, doc)}
+		PClass: Classify(h.Ident), GClass: groupClass(chain, doc), Form: "func"}
+	if h.Ctl != "" && !h.Method {
+		rs.Form = "ctlfunc"
+		rs.PClass = "ctlfunc:" + rs.PClass
+	}
 	if h.Method {
+		rs.Form = "methodexpr"
 		rs.Expr = ref(h.Pkg, "(*"+h.Ctl+")."+h.Ident)
 		rs.What = "func (*" + h.Ctl + ")." + h.Ident
 		rs.PClass = "methodexpr:" + rs.PClass
 	} else {
 		rs.Expr = ref(h.Pkg, h.Ident)
 		rs.What = "func " + h.Ident
+		if h.Ctl != "" {
+			rs.What += "(*" + h.Ctl + ", *string)"
+		}
 	}
 	if h.Pkg != "main" {
 		rs.What += " (package " + h.Pkg + ")"
@@ -429,7 +450,7 @@ func (g *gen) regCtl(c *Controller, chain []string, doc bool) *RegSpec {
 		kind = c10rt.PushStruct
 	}
 	rs := &RegSpec{ID: fmt.Sprintf("R%d", g.nreg), Group: chain, Kind: kind, Expr: ref(c.Pkg, "new("+c.Name+")"),
-		PClass: "struct:" + Classify(c.Name), GClass: groupClass(chain, doc)}
+		PClass: "struct:" + Classify(c.Name), GClass: groupClass(chain, doc), Form: "struct"}
 	var ms []string
 	p := g.m(g.prefix(chain), c.Name)
 	allDoc := doc
@@ -546,14 +567,14 @@ func (g *gen) place(ps *PeerSpec, ns nameSet, doc bool, base []string, build fun
 }
 
 // Generate builds program number index (even: HTTP mapper, odd: RPC mapper).
-func Generate(seed int64, index int, size int) *Program {
+func Generate(seed int64, index int, size int, rounds int) *Program {
 	g := &gen{r: core.NewRand(seed, int64(index), 1010), used: map[string]map[string]bool{"main": {}, "alt": {}, "ctl": {}}, funcs: map[string]*Handler{}}
 	g.mapper = "http"
 	if index%2 == 1 {
 		g.mapper = "rpc"
 	}
 	g.m = c10rt.MapperFunc(g.mapper)
-	p := &Program{Index: index, Mapper: g.mapper}
+	p := &Program{Index: index, Mapper: g.mapper, Rounds: rounds, Seed: int64(core.NewRand(seed, int64(index), 2020).Uint64() >> 1)}
 
 	// --- handler identities ---
 	var docCall, docPush []*Handler
@@ -654,6 +675,38 @@ func Generate(seed int64, index int, size int) *Program {
 		}
 	}
 
+	// functions (not methods) whose first parameter is a controller pointer, and the method
+	// expressions every peer class gets (call and push flavour)
+	var ctlFns []*Handler
+	for _, c := range append([]*Controller{aaa, bbb}, rndCtls...) {
+		for try := 0; try < 10; try++ {
+			if h := g.ctlFn(c, g.pickIdent(false)); h != nil {
+				ctlFns = append(ctlFns, h)
+				break
+			}
+		}
+	}
+	exprsFor := func(k int) []*Handler { // README method expressions + one of a generated controller per flavour + controller-pointer functions
+		hs := []*Handler{aaa.Methods[0], bbb.Methods[0]}
+		var seenCall, seenPush bool
+		for i := range rndCtls {
+			c := rndCtls[(i+k)%len(rndCtls)]
+			if c.Push && !seenPush {
+				seenPush = true
+				hs = append(hs, c.Methods[k%len(c.Methods)])
+			} else if !c.Push && !seenCall {
+				seenCall = true
+				hs = append(hs, c.Methods[k%len(c.Methods)])
+			}
+		}
+		for i, h := range ctlFns {
+			if i < 2 || (i+k)%3 == 0 {
+				hs = append(hs, h)
+			}
+		}
+		return hs
+	}
+
 	// --- peer 0: everything, probed without and then with unknown-handlers ---
 	p0 := &PeerSpec{Class: c10rt.LateUnknown}
 	ns0 := nameSet{}
@@ -717,6 +770,10 @@ func Generate(seed int64, index int, size int) *Program {
 		g.place(p0, ns0, false, nil, func(ch []string, d bool) *RegSpec { return g.regFunc(a, ch, d) })
 		g.place(p0, ns0, false, nil, func(ch []string, d bool) *RegSpec { return g.regFunc(b, ch, d) })
 	}
+	for _, h := range ctlFns {
+		h := h
+		g.place(p0, ns0, false, nil, func(c []string, d bool) *RegSpec { return g.regFunc(h, c, d) })
+	}
 	g.shuffleRegs(p0)
 
 	// --- peer 1: unknown-handlers set before any registration ---
@@ -735,11 +792,15 @@ func Generate(seed int64, index int, size int) *Program {
 	}
 	g.place(p1, ns1, true, nil, func(ch []string, d bool) *RegSpec { return g.regCtl(aaa, ch, d) })
 	g.place(p1, ns1, true, nil, func(ch []string, d bool) *RegSpec { return g.regCtl(bbb, ch, d) })
+	for _, h := range exprsFor(1) {
+		h := h
+		g.place(p1, ns1, false, nil, func(c []string, d bool) *RegSpec { return g.regFunc(h, c, d) })
+	}
 
 	// --- peer 2: unknown-handlers set through SubRouter.ToRouter() ---
 	p2 := &PeerSpec{Class: c10rt.SubUnknown, UnknownGroup: g.docChain(1 + g.r.Intn(2))}
 	ns2 := nameSet{}
-	for _, h := range []*Handler{xxzz, yyzz, docCall[g.r.Intn(8)], docPush[g.r.Intn(8)]} {
+	for _, h := range append([]*Handler{xxzz, yyzz, docCall[g.r.Intn(8)], docPush[g.r.Intn(8)]}, firstN(exprsFor(2), 4)...) {
 		h := h
 		g.place(p2, ns2, true, p2.UnknownGroup, func(c []string, d bool) *RegSpec { return g.regFunc(h, c, d) })
 	}
@@ -797,6 +858,10 @@ func Generate(seed int64, index int, size int) *Program {
 		}
 		g.place(ps, ns, true, nil, func(ch []string, d bool) *RegSpec { return g.regCtl(aaa, ch, d) })
 		g.place(ps, ns, true, nil, func(ch []string, d bool) *RegSpec { return g.regCtl(bbb, ch, d) })
+		for _, h := range exprsFor(off + 2) {
+			h := h
+			g.place(ps, ns, false, nil, func(c []string, d bool) *RegSpec { return g.regFunc(h, c, d) })
+		}
 		return ps
 	}
 	p3 := renamePeer(c10rt.RenameIgnoreCase, 1)
@@ -974,7 +1039,7 @@ func (g *gen) shuffleRegs(ps *PeerSpec) {
 
 func regLit(rs *RegSpec) string {
 	var b strings.Builder
-	fmt.Fprintf(&b, "{ID: %q, Kind: %q, V: %s, Tags: %s", rs.ID, rs.Kind, rs.Expr, strLit(rs.Tags))
+	fmt.Fprintf(&b, "{ID: %q, Kind: %q, Form: %q, V: %s, Tags: %s", rs.ID, rs.Kind, rs.Form, rs.Expr, strLit(rs.Tags))
 	if len(rs.Group) > 0 {
 		fmt.Fprintf(&b, ", Group: %s", strLit(rs.Group))
 	}
@@ -1004,13 +1069,13 @@ func (g *gen) defs(pkg string) (string, []string) {
 		if c.Push {
 			ctx = "erpc.PushCtx"
 		}
-		fmt.Fprintf(&b, "type %s struct{ %s }\n\n", c.Name, ctx)
+		fmt.Fprintf(&b, "type %s struct {\n\t%s\n\tc10guard c10rt.Guard\n}\n\n", c.Name, ctx)
 		keys = append(keys, "new("+c.Name+")")
 		for _, h := range c.Methods {
 			if c.Push {
-				fmt.Fprintf(&b, "func (c *%s) %s(arg *string) *erpc.Status { return c10rt.Push(%q, c.PushCtx, arg) }\n\n", c.Name, h.Ident, h.Tag)
+				fmt.Fprintf(&b, "func (c *%s) %s(arg *string) *erpc.Status { return c10rt.PushCtl(%q, &c.c10guard, c.PushCtx, arg) }\n\n", c.Name, h.Ident, h.Tag)
 			} else {
-				fmt.Fprintf(&b, "func (c *%s) %s(arg *string) (string, *erpc.Status) { return c10rt.Call(%q, c.CallCtx, arg) }\n\n", c.Name, h.Ident, h.Tag)
+				fmt.Fprintf(&b, "func (c *%s) %s(arg *string) (string, *erpc.Status) { return c10rt.CallCtl(%q, &c.c10guard, c.CallCtx, arg) }\n\n", c.Name, h.Ident, h.Tag)
 			}
 			keys = append(keys, "(*"+c.Name+")."+h.Ident)
 		}
@@ -1019,7 +1084,11 @@ func (g *gen) defs(pkg string) (string, []string) {
 		if h.Pkg != pkg || h.Method {
 			continue
 		}
-		if h.Push {
+		if h.Ctl != "" && h.Push { // a function (not a method) whose first parameter is a controller pointer
+			fmt.Fprintf(&b, "func %s(c *%s, arg *string) *erpc.Status { return c10rt.PushCtl(%q, &c.c10guard, c.PushCtx, arg) }\n\n", h.Ident, h.Ctl, h.Tag)
+		} else if h.Ctl != "" {
+			fmt.Fprintf(&b, "func %s(c *%s, arg *string) (string, *erpc.Status) { return c10rt.CallCtl(%q, &c.c10guard, c.CallCtx, arg) }\n\n", h.Ident, h.Ctl, h.Tag)
+		} else if h.Push {
 			fmt.Fprintf(&b, "func %s(ctx erpc.PushCtx, arg *string) *erpc.Status { return c10rt.Push(%q, ctx, arg) }\n\n", h.Ident, h.Tag)
 		} else {
 			fmt.Fprintf(&b, "func %s(ctx erpc.CallCtx, arg *string) (string, *erpc.Status) { return c10rt.Call(%q, ctx, arg) }\n\n", h.Ident, h.Tag)
@@ -1049,7 +1118,7 @@ func (g *gen) source(p *Program) map[string]string {
 	d, _ := g.defs("main")
 	m.WriteString(d)
 	m.WriteString("func main() {\n\tc10rt.Main(c10rt.Program{\n")
-	fmt.Fprintf(&m, "\t\tMapper: %q,\n\t\tPeers: []c10rt.PeerSpec{\n", p.Mapper)
+	fmt.Fprintf(&m, "\t\tMapper: %q,\n\t\tSeed: %d,\n\t\tRounds: %d,\n\t\tPeers: []c10rt.PeerSpec{\n", p.Mapper, p.Seed, p.Rounds)
 	for _, ps := range p.Peers {
 		fmt.Fprintf(&m, "\t\t\t{Class: %q, UnknownGroup: %s, Regs: []c10rt.Reg{\n", ps.Class, strLit(ps.UnknownGroup))
 		for _, rs := range ps.Regs {
@@ -1108,4 +1177,11 @@ func RandIdent(r *core.Rand) string {
 		return fixedPool[r.Intn(len(fixedPool))]
 	}
 	return synth(r, r.Chance(1, 2))
+}
+
+func firstN(hs []*Handler, n int) []*Handler {
+	if len(hs) > n {
+		return hs[:n]
+	}
+	return hs
 }
